@@ -154,6 +154,28 @@ void vrt_violation(const char *key, const char *fmt, ...)
     }
     pthread_mutex_unlock(&g_out_lock);
 }
+/* A violation that must not stop the workload (candidates for the
+ * known-findings list): recorded like any other violation, but not counted by
+ * vrt_num_violations(), which the harness loops use as their stop flag. */
+static int g_nfindings;
+void vrt_finding(const char *key, const char *fmt, ...)
+{
+    va_list ap;
+    pthread_mutex_lock(&g_out_lock);
+    __atomic_fetch_add(&g_nfindings, 1, __ATOMIC_RELAXED);
+    int dup = 0;
+    for (int i = 0; i < g_nviol_stored; i++)
+        if (!strcmp(g_viol[i].key, key))
+            dup++;
+    if (g_nviol_stored < MAX_VIOL && dup < 1) {
+        snprintf(g_viol[g_nviol_stored].key, sizeof(g_viol[0].key), "%s", key);
+        va_start(ap, fmt);
+        vsnprintf(g_viol[g_nviol_stored].msg, sizeof(g_viol[0].msg), fmt, ap);
+        va_end(ap);
+        g_nviol_stored++;
+    }
+    pthread_mutex_unlock(&g_out_lock);
+}
 int vrt_num_violations(void)
 {
     return __atomic_load_n(&g_nviol, __ATOMIC_RELAXED);
@@ -563,10 +585,24 @@ void vrt_supervisor_stop(void)
 }
 
 /* ------------------------------------------------------------------ */
+static char g_crash_label[200];
+void vrt_crash_label(const char *label)
+{
+    /* not async-signal-safe to update, but only read by the crash handler */
+    snprintf(g_crash_label, sizeof(g_crash_label), "%s", label);
+}
+
 static void crash_handler(int sig)
 {
+    static const char m0[] = "VRT-CRASH-LABEL ";
+    ssize_t w;
+    if (g_crash_label[0]) {
+        w = write(2, m0, sizeof(m0) - 1);
+        w = write(2, g_crash_label, strlen(g_crash_label));
+        w = write(2, "\n", 1);
+    }
     static const char m1[] = "VRT-CRASH signal ";
-    ssize_t w = write(2, m1, sizeof(m1) - 1);
+    w = write(2, m1, sizeof(m1) - 1);
     char num[8];
     int n = 0;
     int s = sig;
@@ -660,7 +696,7 @@ static void emit_result(const char *scenario, const char *verdict)
     fprintf(f, ",\"seed\":%llu,\"verdict\":\"%s\",\"delay\":",
             (unsigned long long)vrt_seed, verdict);
     json_str(f, g_delay_name);
-    fprintf(f, ",\"nviol\":%d,\"violations\":[", g_nviol);
+    fprintf(f, ",\"nviol\":%d,\"violations\":[", g_nviol + g_nfindings);
     for (int i = 0; i < g_nviol_stored; i++) {
         fprintf(f, "%s{\"key\":", i ? "," : "");
         json_str(f, g_viol[i].key);
@@ -716,7 +752,7 @@ int vrt_finish(const char *scenario)
     vrt_supervisor_stop();
     const char *verdict = "held";
     int rc = 0;
-    if (g_nviol > 0) {
+    if (g_nviol > 0 || g_nfindings > 0) {
         verdict = "violated";
         rc = 1;
     } else if (g_inconclusive[0]) {
